@@ -142,6 +142,29 @@ func checkEvents(w *World, ops map[string]*OpSpec, tree *Node, p *Plan, out *Out
 			return "event-shape", fmt.Sprintf("unknown event type %q", ev.EventType)
 		}
 	}
+	// LOOP snapshots are the real operand stack: right before a (non-fast)
+	// operator is applied its operands are the top of the stack, so the LOOP
+	// event of an operator node must end with the arguments of the OP_EXEC
+	// event that immediately follows it
+	for i := 0; i+1 < len(evs); i++ {
+		ld, ok := evs[i].Data.(eval.LoopEventData)
+		if !ok || evs[i].EventType != eval.LoopEvent || ld.NodeType != eval.OperatorNode {
+			continue
+		}
+		od, ok := evs[i+1].Data.(eval.OpEventData)
+		if !ok || od.IsFastOp || fmt.Sprint(ld.NodeValue) != od.OpName {
+			continue
+		}
+		st.Probe("loop_snapshots_checked_against_operands")
+		stack := evs[i].Stack
+		if len(stack) < len(od.Params) {
+			return "loop-stack", fmt.Sprintf("LOOP event before %s shows a stack of %d values, the operator is then applied to %d operands", od.OpName, len(stack), len(od.Params))
+		}
+		top := stack[len(stack)-len(od.Params):]
+		if !ValEq(toIfaces(top), toIfaces(od.Params)) {
+			return "loop-stack", fmt.Sprintf("LOOP event before %s shows %s on top of the operand stack, the operator is then applied to %s", od.OpName, ValStr(toIfaces(top)), ValStr(toIfaces(od.Params)))
+		}
+	}
 	// (ii) user-operator events are exactly the seam log
 	var simEvs []eval.OpEventData
 	for _, d := range opEvs {
